@@ -248,18 +248,33 @@ def mk_soap_client_class(network: Network):
 
 class _FakeAioResponse:
     """async context manager returned by ``session.post``; the transmission happens when it is entered, after the optional delay
-    the network dictates for this message (``Network.async_delay`` - a transfer that really suspends, like a slow link)."""
+    the network dictates for this message (``Network.async_delay`` - a transfer that really suspends, like a slow link).
 
-    def __init__(self, session, path, data, headers):
-        self.session, self.path, self.data, self.headers = session, path, data, headers
+    Offers both interfaces SoapClientAsync has used: ``text()`` (aiohttp decodes) and ``read()`` + ``headers.getall()`` (the client
+    decodes itself, /repo 617bbaa); a request body given as async generator (``chunked=True``, /repo 968f31b) is put together again -
+    the loop-back replaces the HTTP framing, the fake server answers uncoded."""
+
+    def __init__(self, session, path, data, headers, chunked=False):
+        self.session, self.path, self.data, self.request_headers = session, path, data, dict(headers or {})
+        self.chunked = chunked
         self.status = self.reason = None
         self._body = b''
+        try:
+            from multidict import CIMultiDict
+            self.headers = CIMultiDict()   # response headers
+        except ImportError:  # pragma: no cover
+            self.headers = {}
 
     async def text(self):
         return self._body.decode('utf-8')
 
+    async def read(self):
+        return self._body
+
     async def __aenter__(self):
         net = self.session.network
+        if not isinstance(self.data, (bytes, bytearray, str, type(None))) and hasattr(self.data, '__aiter__'):
+            self.data = b''.join([piece async for piece in self.data])
         if net.async_delay is not None:
             delay = net.async_delay(self.session.netloc, self.path, self.data)
             if delay:
@@ -268,7 +283,7 @@ class _FakeAioResponse:
         server = net.servers.get(self.session.netloc)
         if server is not None and (self.session.ssl_context is not None) != (server.scheme == 'https'):
             raise ConnectionResetError('loop-back: TLS / plaintext mismatch')
-        entry = net.transmit(self.session.netloc, 'POST', self.path, self.headers or {}, self.data or b'')
+        entry = net.transmit(self.session.netloc, 'POST', self.path, self.request_headers, self.data or b'')
         self.status, self.reason = entry.status, entry.reason
         self._body = entry.response or b''
         return self
@@ -282,8 +297,8 @@ class _FakeAioSession:
         self.network, self.netloc, self.ssl_context = network, netloc, ssl_context
         network.connections.append((netloc, ssl_context))
 
-    def post(self, path, data=None, headers=None):
-        return _FakeAioResponse(self, path, data, headers)
+    def post(self, path, data=None, headers=None, chunked=False, **_kw):
+        return _FakeAioResponse(self, path, data, headers, chunked=bool(chunked))
 
     async def close(self):
         pass
